@@ -1,8 +1,8 @@
 #!/bin/bash
-# tools/try_seed.sh <ID> [check-id ...] : verify a seeded change delivered in /tmp/seed_<ID>/_seed and run our check(s) against it
+# [SEED_PREFIX=/tmp/seed2_] tools/try_seed.sh <ID> [check-id ...] : verify a seeded change delivered in /tmp/seed_<ID>/_seed and run our check(s) against it
 ID=$1; shift
 CHECKS=${@:-$ID}
-WT=/tmp/seed_$ID
+WT=${SEED_PREFIX:-/tmp/seed_}$ID
 SD=$WT/_seed
 [ -f $SD/patch.diff ] || { echo "no patch"; exit 2; }
 cd $WT
